@@ -43,7 +43,89 @@ func init() {
 
 const memPkg = "internal/core/storage/memory"
 
+// checkDefaultExpiryOnlyForNewKeys: a container operation of the Redis backend (list push, hash set,
+// counter) gives the key its default lifetime only when the key was just created.  The test has to
+// measure the whole key (its length is 1, the counter equals the delta, it has no TTL): the reply of
+// the element operation itself (HSET/RPUSH/SADD count the elements added) is also 1 when a new
+// element joins an old key, and re-arming the lifetime then overrides a shorter one set by the
+// caller - the in-memory backend leaves the lifetime of an existing container alone.
+func checkDefaultExpiryOnlyForNewKeys(r *Report) {
+	n := 0
+	keyMeasures := []string{"LLen", "HLen", "SCard", "ZCard", "Exists", "TTL", "PTTL", "IncrBy", "Incr", "IncrByFloat", "HIncrBy"}
+	elemOps := []string{"HSet", "HSetNX", "RPush", "LPush", "SAdd", "ZAdd", "RPushX", "LPushX"}
+	for _, f := range r.P.FuncsIn(redisPkg) {
+		for _, c := range Calls(f, false, "Expire") {
+			args := c.Common().Args
+			if len(args) == 0 {
+				continue
+			}
+			if _, isConst := args[len(args)-1].(*ssa.Const); !isConst {
+				continue // the caller's ttl (R-C13-3 decides those)
+			}
+			n++
+			verdict, why := "", ""
+			producing := func(v ssa.Value) string {
+				for i := 0; i < 6 && v != nil; i++ {
+					cc, _ := CallOfValue(v)
+					if cc == nil {
+						return ""
+					}
+					name := ""
+					if cc.Common().IsInvoke() {
+						name = cc.Common().Method.Name()
+					} else {
+						name = CalleeOf(cc).Name
+					}
+					switch name {
+					case "Val", "Result", "Int64", "Uint64", "Int":
+						v = Recv(cc)
+						continue
+					}
+					return name
+				}
+				return ""
+			}
+			for _, ft := range Facts(c.Block()) {
+				var sides []ssa.Value
+				if bo, isB := ft.Cond.(*ssa.BinOp); isB {
+					sides = []ssa.Value{bo.X, bo.Y}
+				} else {
+					sides = []ssa.Value{ft.Cond}
+				}
+				for _, sd := range sides {
+					cmd := producing(sd)
+					for _, m := range elemOps {
+						if cmd == m && verdict == "" {
+							verdict, why = "elem", m
+						}
+					}
+					for _, m := range keyMeasures {
+						if cmd == m {
+							verdict, why = "key", m
+						}
+					}
+				}
+			}
+			ok := verdict == "key"
+			msg := "the default lifetime is applied only under a test that measures the whole key"
+			switch verdict {
+			case "key":
+				msg += " (" + why + ")"
+			case "elem":
+				msg += ": the test here reads the reply of " + why + ", which counts added elements, not whether the key is new"
+			default:
+				msg += ": no such test dominates the Expire"
+			}
+			r.Ob("R-C13-3", CallPos(c), ok, msg, r.P.FuncName(f), "default-expiry-only-for-new-key")
+		}
+	}
+	if n < 1 {
+		r.Fail("R-C13-3", 0, "no default-lifetime Expire found in the redis backend (3 confirmed by hand)", redisPkg, "default-expiry-only-for-new-key:floor")
+	}
+}
+
 func runC13(r *Report) {
+	checkDefaultExpiryOnlyForNewKeys(r)
 	// ---- R-C13-1 guarded-by ------------------------------------------------
 	guardedBy(r, "R-C13-1", memPkg, "Storage", "data", "mu", map[string]string{
 		"New": "constructor: object not yet shared",
